@@ -34,6 +34,7 @@ type verifC05Case struct {
 	Many   bool   `json:"many,omitempty"` // one of the responses that are all held open at the same time
 	Status int    `json:"status,omitempty"` // status of the backend's response (0 = 200)
 	Method string `json:"method,omitempty"` // method of the forwarded request ("" = GET)
+	Early  bool   `json:"early_hints,omitempty"` // the backend sends 103 Early Hints before its response
 }
 
 const verifC05Many = 40
@@ -82,6 +83,11 @@ func TestVerifC05(t *testing.T) {
 				total += sz
 			}
 			w.Header().Set("Content-Length", fmt.Sprint(total))
+		}
+		if c.Early {
+			w.Header().Set("Link", "</style.css>; rel=preload")
+			w.WriteHeader(103)
+			w.Header().Del("Link")
 		}
 		if c.Status != 0 {
 			w.WriteHeader(c.Status)
@@ -280,6 +286,7 @@ func TestVerifC05(t *testing.T) {
 			}
 			// streamed responses to requests of every method (a POST that is answered with an event stream)
 			c.Method = []string{"", "POST", "", "PUT", "DELETE", "", "PATCH"}[(i+2)%7]
+			c.Early = i%4 == 3
 			if config == "plain" || config == "h2c" {
 				// streamed responses of every status class (an event stream may well be an error page that keeps growing)
 				c.Status = []int{200, 200, 200, 500, 206, 503, 404}[i%7]
